@@ -192,7 +192,22 @@ pub fn decode(s: &mut Src) -> TreeCase {
     let n = s.range(1, 3);
     for _ in 0..n {
         input.push_str(*s.pick(PLACES));
-        input.push_str(*s.pick(META_FORMS));
+        if s.chance(70) {
+            // a random content string over a wider alphabet than part (1): other spellings of the
+            // keyword, and characters whose Unicode case mappings change their UTF-8 length
+            const WIDE: &[&str] = &[
+                "charset", "CHARSET", "Charset", "charſet", "char", "set", "x", "utf-8", " ", "\t", "\x0C", "\n", "\r", "=", "\"", "'", ";", "é", "İ", "\u{212A}",
+                "\u{212B}", "\u{2126}", "ẞ", "Ⱥ", "Ⱦ", "ı", "ß", "😁", "text/html", ",", "==",
+            ];
+            let mut content = String::new();
+            for _ in 0..s.range(1, 8) {
+                content.push_str(*s.pick(WIDE));
+            }
+            let he = *s.pick(&["content-type", "Content-Type", "CONTENT-TYPE", "content-type", "content‐type", "refresh"]);
+            input.push_str(&format!("<meta http-equiv={he} content=\"{}\">", attr_escape(&content)));
+        } else {
+            input.push_str(*s.pick(META_FORMS));
+        }
         if s.chance(60) {
             input.push_str(&tc.input);
         }
@@ -201,6 +216,10 @@ pub fn decode(s: &mut Src) -> TreeCase {
         input.push_str(&tc.input);
     }
     tc.input = input;
+    // options that must not matter for the indicators
+    tc.cfg.profile = s.chance(60);
+    tc.cfg.tok_exact_errors = s.chance(60);
+    tc.cfg.tb_exact_errors = s.chance(40);
     let cs = tc.input.chars().count();
     let cuts = chunks::gen_cuts(s, cs);
     tc.chunks = chunks::chunk_str(&tc.input, &cuts);
@@ -209,7 +228,7 @@ pub fn decode(s: &mut Src) -> TreeCase {
 
 pub fn run(ctx: &Ctx) -> Report {
     let mut rep = Report::new(
-        "Observed: the sequence of TokenizerResult::EncodingIndicator(label) values returned by feed() while parsing into ModelDom, and whether the meta element was already connected to the document (or template contents) when feed() returned. Expected: for each HTML meta element the reference tree builder inserted (inputs on which html5ever's tree equals the reference's; others are C02's and counted as excluded), in order: its charset value if present, else - when http-equiv matches content-type ASCII-case-insensitively and content is present - the result of a char-based transcription of the WHATWG 'extract a character encoding from a meta element' algorithm, if it returns one; nothing otherwise. Resumption: the final tree must equal the tree of the twin document in which charset/http-equiv are renamed (same lengths, same chunk cuts) so that no indicator fires. Search: (1) every content string of <= L grammar tokens over {charset, ChArSeT, x, SPACE, TAB, FF, LF, CR, =, \", ', ;, é} in <meta http-equiv=content-type content=...>; (2) 26 meta/link/base forms placed after 25 context prefixes (head, noscript-in-head, after head, body, table/foster-parented, caption/cell, template, after body, frameset modes, foreign content, raw-text elements, comments) x grammar-generated surroundings x fragment contexts x random chunkings. Non-trivial: >=1 meta inserted or 'charset' in the input; distinct by case hash.",
+        "Observed: the sequence of TokenizerResult::EncodingIndicator(label) values returned by feed() while parsing into ModelDom, and whether the meta element was already connected to the document (or template contents) when feed() returned. Expected: for each HTML meta element the reference tree builder inserted (inputs on which html5ever's tree equals the reference's; others are C02's and counted as excluded), in order: its charset value if present, else - when http-equiv matches content-type ASCII-case-insensitively and content is present - the result of a char-based transcription of the WHATWG 'extract a character encoding from a meta element' algorithm, if it returns one; nothing otherwise. Resumption: the final tree must equal the tree of the twin document in which charset/http-equiv are renamed (same lengths, same chunk cuts) so that no indicator fires. Search: (1) every content string of <= L grammar tokens over {charset, ChArSeT, x, SPACE, TAB, FF, LF, CR, =, \", ', ;, é} in <meta http-equiv=content-type content=...>; (2) 26 meta/link/base forms placed after 25 context prefixes (head, noscript-in-head, after head, body, table/foster-parented, caption/cell, template, after body, frameset modes, foreign content, raw-text elements, comments) and random content strings over a wider alphabet (other spellings of the keyword, characters whose case mappings change length) x grammar-generated surroundings x fragment contexts x profile / exact_errors on and off x random chunkings. Non-trivial: >=1 meta inserted or 'charset' in the input; distinct by case hash.",
     );
     rep.assume("labels are reported unvalidated (html5ever documents that); an empty charset value is reported as the empty label");
     report_known(ctx, &mut rep, &|v| replay(&ctx.strict_clone(), v));
@@ -243,7 +262,8 @@ pub fn run(ctx: &Ctx) -> Report {
     rep.absorb(out);
     rep.extra.insert("content_strings".into(), json!({"tokens": nt, "max_len": l, "cases": total}));
     // (2)
-    let out = run_random(ctx.seed, ctx.tier.pick(1_000_000, 15_000_000), 1500, decode, |c, st| check_with(&kf, c, st));
+    // (profile=true makes the tokenizer print timing tables)
+    let out = with_stdout_silenced(|| run_random(ctx.seed, ctx.tier.pick(1_000_000, 15_000_000), 1500, decode, |c, st| check_with(&kf, c, st)));
     rep.absorb(out);
     for l in ["indicator expected", "meta that must not fire", "content string yields a label", "label extracted from content"] {
         rep.need(l, 200);
@@ -255,5 +275,5 @@ pub fn replay(ctx: &Ctx, v: &Value) -> Result<(), String> {
     let case: TreeCase = serde_json::from_value(v.clone()).map_err(|e| format!("bad case: {e}"))?;
     let mut st = Stats::default();
     let kf = c02::active_switches(ctx);
-    check_with(&kf, &case, &mut st)
+    with_stdout_silenced(|| check_with(&kf, &case, &mut st))
 }
